@@ -766,8 +766,8 @@ def terms_are_like(
     if len(one.variables) != len(two.variables):
         return False
 
-    invalid = len([False for v in one.variables if v not in two.variables]) > 0
-    if invalid:
+    # NOTE: compare as multisets, a subset test is not symmetric (y*y vs z*y)
+    if sorted(one.variables) != sorted(two.variables):
         return False
 
     # Also, the exponents must match
